@@ -23,10 +23,19 @@ Definition erase_decl (d : decl) : decl :=
   end.
 Definition erase_comb (c : comb) : comb := Comb [] (c_anns c) (erase_decl (c_decl c)).
 
-(* what the parser can give back: a named field; `_` is the only name of an ignored field (F19), never optional *)
+(* what the parser can give back: a named field, marked ignored exactly when its name starts with `_`
+   (`_` or a deprecated `_name`), and then never optional *)
+Definition starts_us (n : str) : bool := match n with c :: _ => c =? 95 | [] => false end.
 Definition wf2_field (f : field) : bool :=
   nonempty (f_name f) && wf_tref (f_type f) &&
-  (if f_ign f then str_eqb (f_name f) [95] && negb (f_opt f) else true).
+  Bool.eqb (f_ign f) (starts_us (f_name f)) && negb (f_ign f && f_opt f).
+
+(* exposes the first token of a named field *)
+Ltac field_cases f H :=
+  destruct f as [nm opt ign cm ty]; unfold wf2_field, toks_field, toks_fname in *;
+  cbn [f_name f_opt f_ign f_type f_comment] in *;
+  destruct nm as [|c w]; [discriminate|]; cbn [nonempty starts_us] in *;
+  destruct (c =? 95) eqn:E95; [destruct w as [|d w]|].
 
 Definition notlt (r : list tok) : Prop := hd_is 60 r = false.
 
@@ -37,13 +46,14 @@ Proof. intros. now apply (proj1 parse_toks). Qed.
 Lemma parse_field_ok : forall f rest fuel, wf2_field f = true -> notlt rest -> (length (toks_field f) < fuel)%nat ->
   parse_field fuel (toks_field f ++ rest) = (st_ok, rest, erase_field f).
 Proof.
-  intros [nm opt ign cm ty] rest fuel H Hr Hf. unfold wf2_field, toks_field, erase_field in *.
-  cbn [f_name f_opt f_ign f_type f_comment] in *.
-  apply andb_true_iff in H. destruct H as [H Hi]. apply andb_true_iff in H. destruct H as [Hn Ht].
-  destruct nm as [|c nm]; [discriminate|]. cbn [nonempty] in *.
-  destruct ign.
-  - apply andb_true_iff in Hi. destruct Hi as [Hi Ho]. apply str_eqb_eq in Hi. inversion Hi; subst.
-    destruct opt; [discriminate|]. cbn [app length] in *. unfold parse_field. cbn [hd_is is_p tl andb negb].
+  intros f rest fuel H Hr Hf. unfold erase_field. field_cases f H; cbn [f_name f_opt f_ign f_type f_comment];
+    apply andb_true_iff in H; destruct H as [H Hio]; apply andb_true_iff in H; destruct H as [H Hi];
+    apply andb_true_iff in H; destruct H as [_ Ht]; apply Bool.eqb_prop in Hi; subst ign;
+    try (assert (c = 95) by lia; subst c).
+  - destruct opt; [discriminate|]. cbn [app length] in *. unfold parse_field. cbn [hd_is is_p tl andb negb].
+    replace (58 =? 63) with false by reflexivity. replace (58 =? 58) with true by reflexivity. cbn [andb negb tl].
+    rewrite parse_ty_toks by (auto; lia). reflexivity.
+  - destruct opt; [discriminate|]. cbn [app length] in *. unfold parse_field. cbn [hd_is is_p tl andb negb].
     replace (58 =? 63) with false by reflexivity. replace (58 =? 58) with true by reflexivity. cbn [andb negb tl].
     rewrite parse_ty_toks by (auto; lia). reflexivity.
   - destruct opt; cbn [app length] in *; rewrite ?app_length in Hf; cbn [length] in Hf; unfold parse_field; cbn [hd_is is_p tl andb negb].
@@ -65,14 +75,12 @@ Proof. intros fuel [|[ns nm| | | | | | | | | |] r] H; try reflexivity; try destr
 
 Lemma toks_field_notlt : forall f r, wf2_field f = true -> notlt (toks_field f ++ r).
 Proof.
-  intros [nm opt ign cm ty] r H. unfold wf2_field, toks_field in *. cbn [f_name f_opt f_ign f_type] in *.
-  destruct nm; [discriminate|]. cbn [nonempty]. destruct ign; reflexivity.
+  intros f r H. field_cases f H; reflexivity.
 Qed.
 
 Lemma toks_field_len : forall f, wf2_field f = true -> (2 <= length (toks_field f))%nat.
 Proof.
-  intros [nm opt ign cm ty] H. unfold wf2_field, toks_field in *. cbn [f_name f_opt f_ign f_type] in *.
-  destruct nm; [discriminate|]. cbn [nonempty]. rewrite !app_length. destruct ign, opt; cbn; lia.
+  intros f H. field_cases f H; rewrite !app_length; destruct opt; cbn; lia.
 Qed.
 
 Lemma parse_fields_ok : forall fs rest n fuel, forallb wf2_field fs = true -> no_field_start rest -> notlt rest ->
@@ -139,8 +147,7 @@ Qed.
 Lemma toks_field_not_vstop : forall f r, wf2_field f = true ->
   hd_is 59 (toks_field f ++ r) || hd_is 124 (toks_field f ++ r) = false.
 Proof.
-  intros [nm opt ign cm ty] r H. unfold wf2_field, toks_field in *. cbn [f_name f_opt f_ign f_type] in *.
-  destruct nm; [discriminate|]. cbn [nonempty]. destruct ign; reflexivity.
+  intros f r H. field_cases f H; reflexivity.
 Qed.
 
 Lemma parse_constr_ok : forall v rest n fuel, wf2_variant v = true -> vstop rest ->
@@ -248,11 +255,7 @@ Proof.
   - destruct (semi_cons rest Hs) as [r' ->]. cbn [toks_fields map concat app]. do 3 eexists. split; [reflexivity|]. split; reflexivity.
   - cbn [forallb] in Hw. apply andb_true_iff in Hw. destruct Hw as [Hwf _].
     rewrite toks_fields_cons, <- app_assoc.
-    destruct f as [nm opt ign cm ty]. unfold wf2_field, toks_field in *. cbn [f_name f_opt f_ign f_type] in *.
-    destruct nm as [|c nm]; [discriminate|]. cbn [nonempty].
-    destruct ign.
-    + do 3 eexists. split; [reflexivity|]. split; reflexivity.
-    + destruct opt; do 3 eexists; (split; [reflexivity|]); split; reflexivity.
+    field_cases f Hwf; destruct opt; do 3 eexists; (split; [reflexivity|]); split; reflexivity.
 Qed.
 
 Lemma parse_structdef_fields : forall fs rest n fuel, forallb wf2_field fs = true -> semi rest ->
@@ -440,8 +443,7 @@ Proof.
   intros [|f fs] rest H Hs.
   - destruct (semi_cons rest Hs) as [r' ->]. reflexivity.
   - cbn in H. apply andb_true_iff in H. destruct H as [H _]. rewrite toks_fields_cons, <- app_assoc.
-    destruct f as [nm opt ign cm ty]. unfold wf2_field, toks_field in *. cbn [f_name f_opt f_ign f_type] in *.
-    destruct nm; [discriminate|]. destruct ign; reflexivity.
+    field_cases f H; reflexivity.
 Qed.
 
 Lemma tref_not_alias : forall t rest, is_alias (toks_tref t ++ rest) = false.
@@ -506,12 +508,12 @@ Lemma take_anns_ok : forall anns ns nm X, take_anns (map KAnn anns ++ KIdent ns 
 Proof. induction anns as [|a anns IH]; intros; [reflexivity|]. cbn [map app take_anns]. now rewrite IH. Qed.
 
 Lemma fields_funeq_head : forall args X, forallb wf2_field args = true ->
-  exists t r, toks_fields args ++ KFunEq :: X = t :: r /\ (t = KFunEq \/ t = KUnderscore \/ exists nm, t = KIdent [] nm).
+  exists t r, toks_fields args ++ KFunEq :: X = t :: r /\
+    (t = KFunEq \/ t = KUnderscore \/ (exists nm, t = KDep nm) \/ exists nm, t = KIdent [] nm).
 Proof.
   intros [|f fs] X H; [do 2 eexists; split; [reflexivity|now left]|].
   cbn in H. apply andb_true_iff in H. destruct H as [H _]. rewrite toks_fields_cons, <- app_assoc.
-  destruct f as [nm opt ign cm ty]. unfold wf2_field, toks_field in *. cbn [f_name f_opt f_ign f_type] in *.
-  destruct nm; [discriminate|]. destruct ign; do 2 eexists; (split; [reflexivity|]); [right; now left|right; right; eauto].
+  field_cases f H; do 2 eexists; (split; [reflexivity|]); [right; now left|right; right; left; eauto|right; right; right; eauto].
 Qed.
 
 Lemma parse_typedecl_func : forall n fuel nm magic args X, 0 < magic < 4294967296 -> forallb wf2_field args = true ->
@@ -520,7 +522,7 @@ Proof.
   intros n fuel nm magic args X Hm Ha. unfold parse_typedecl, toks_magic. replace (magic =? 0) with false by lia. cbn [app].
   rewrite hexval_hex8 by lia. replace (magic =? 0) with false by lia.
   destruct (fields_funeq_head args X Ha) as (t & r & E & Ht). rewrite E.
-  destruct Ht as [-> | [-> | [x ->]]]; reflexivity.
+  destruct Ht as [-> | [-> | [[x ->] | [x ->]]]]; reflexivity.
 Qed.
 
 Lemma parse_comb_ok : forall bar c rest n fuel, wf2_comb bar c = true ->
@@ -553,7 +555,7 @@ Proof.
     { clear - E Hm0 Hm Ha. unfold parse_typedecl, toks_magic in E. replace (m =? 0) with false in E by lia. cbn [app] in E.
       rewrite hexval_hex8 in E by lia. replace (m =? 0) with false in E by lia.
       destruct (fields_funeq_head args (toks_def bar true ret ++ KP 59 :: rest) Ha) as (t & r & E1 & Ht). rewrite E1 in E.
-      destruct Ht as [-> | [-> | [x ->]]]; cbn in E; congruence. }
+      destruct Ht as [-> | [-> | [[x ->] | [x ->]]]]; cbn in E; congruence. }
     subst e. reflexivity.
 Qed.
 
@@ -711,15 +713,6 @@ Proof.
   intros o f Hn H1 H2. rewrite parse2_fmt2 by assumption. f_equal. exact (map_id_on _ _ _ _ erase_comb_id Hn).
 Qed.
 
-(** F19: a deprecated field name `_name` is printed `_`, so it does not come back *)
+(** F19 (repaired in /repo by commit 2301fcd1): a deprecated field name `_name` now comes back *)
 Definition f19_comb : comb :=
   Comb [] [] (DType (TName [] [97]) 0 [] (DStruct [Field [95; 102; 111; 111] false true [] (TApp (TName [] [105; 110; 116]) false [])])).
-
-Theorem fmt2_refuted_dep_name :
-  exists c, wf_comb default_options c = true /\ wf_comb canonical_options c = true /\
-    forall o, o = default_options \/ o = canonical_options ->
-      exists c', parse2 (fmt2 o [c]) = Some [c'] /\ c' <> erase_comb c.
-Proof.
-  exists f19_comb. split; [vm_compute; reflexivity|]. split; [vm_compute; reflexivity|].
-  intros o [-> | ->]; eexists; (split; [vm_compute; reflexivity|discriminate]).
-Qed.
